@@ -354,3 +354,66 @@ func fromConfLookup(v ssa.Value, seen map[ssa.Value]bool, depth int) bool {
 	}
 	return false
 }
+
+// c12PublishAfterInit (R6): an object is put into a live registry only after it has been filled.
+// UpdateCluster builds a new cluster, lets the caller's handler fill it (inherit or set hosts, load balancer, resource
+// manager) and only then stores it in clustersMap, where request paths find it by name. If the store comes first, every
+// request that looks the cluster up during the handler sees a cluster without hosts ("no healthy upstream" caused only by
+// the swap). Clause: no call through a function-typed value that receives the stored object is reachable after the store.
+func c12PublishAfterInit(c *Ctx) {
+	pkg := "pkg/upstream/cluster"
+	fn := c.M(pkg, "clusterManager", "UpdateCluster")
+	if fn == nil {
+		c.Unresolved("C12.R6", "clusterManager.UpdateCluster")
+		return
+	}
+	fk := funcKey(fn)
+	var stores []ssa.CallInstruction
+	for _, cs := range callsIn(fn, false, func(cc *ssa.CallCommon) bool {
+		f := cc.StaticCallee()
+		return f != nil && strings.HasSuffix(f.String(), "(*sync.Map).Store")
+	}) {
+		if _, f, _, ok := fieldAddrInfo(cs.Instr.Common().Args[0]); ok && f == "clustersMap" {
+			stores = append(stores, cs.Instr)
+		}
+	}
+	if len(stores) != 1 {
+		c.Fail("C12.R6", fk+":single-publish", fn.Pos(), fmt.Sprintf("expected exactly one clustersMap.Store in UpdateCluster, found %d", len(stores)))
+		return
+	}
+	st := stores[0]
+	obj := stripIface(st.Common().Args[2])
+	// initialising callbacks: dynamic calls (through a function value) that receive the object
+	nInit := 0
+	var late ssa.Instruction
+	forEachInstr(fn, false, func(_ *ssa.Function, in ssa.Instruction) {
+		ci, ok := in.(ssa.CallInstruction)
+		if !ok || ci.Common().IsInvoke() || ci.Common().StaticCallee() != nil {
+			return
+		}
+		if _, isB := ci.Common().Value.(*ssa.Builtin); isB {
+			return
+		}
+		gets := false
+		for _, a := range ci.Common().Args {
+			if stripIface(a) == obj {
+				gets = true
+			}
+		}
+		if !gets {
+			return
+		}
+		nInit++
+		if existsPath(fn, st, func(x ssa.Instruction) bool { return x == in }, nil) != nil {
+			late = in
+		}
+	})
+	pos := st.Pos()
+	if late != nil {
+		pos = late.Pos()
+	}
+	c.Check("C12.R6", fk+":publish-after-init", pos, nInit >= 1 && late == nil, "the new cluster is stored in clustersMap only after the update handler has filled it", "the new cluster is made visible in clustersMap before the update handler has filled it: a request that looks the cluster up during the update finds no hosts and fails only because of the swap")
+	// and the object stored is the one that was built and handed to the handler (not the old one)
+	_, isCallRes := obj.(*ssa.Call)
+	c.Check("C12.R6", fk+":publishes-new-object", st.Pos(), isCallRes && methodName(obj.(*ssa.Call).Common()) == "NewCluster", "the stored object is the cluster built from the new configuration", "the object stored in clustersMap is not the cluster built from the new configuration")
+}
